@@ -1,4 +1,577 @@
 import Hdl21Model.Conn
 import Hdl21Model.Lemmas.Slice
 namespace Hdl21
+
+/-! ### `pick` -/
+
+theorem pick_nil {α} (bs : List α) : pick bs [] = .ok [] := rfl
+
+theorem pick_cons {α} (bs : List α) (k : Int) (ks : List Int) :
+    pick bs (k :: ks) =
+      (if k < 0 then .error (.reject "negative bit") else
+        match bs[k.toNat]? with
+        | some b => (match pick bs ks with | .ok r => .ok (b :: r) | .error e => .error e)
+        | none => .error (.reject "bit out of range")) := by
+  unfold pick
+  rw [List.mapM_cons]
+  split
+  · rfl
+  · split <;> rename_i h
+    · simp only [h]
+      cases hr : List.mapM (fun (k : Int) => if k < 0 then (Except.error (Err.reject "negative bit") : Except Err α) else
+          match bs[k.toNat]? with
+          | some b => Except.ok b
+          | none => Except.error (Err.reject "bit out of range")) ks <;> rfl
+    · simp only [h]; rfl
+
+theorem pick_length {α} (bs : List α) (ks : List Int) (r : List α) (h : pick bs ks = .ok r) :
+    r.length = ks.length := by
+  induction ks generalizing r with
+  | nil => simp [pick_nil] at h; subst h; rfl
+  | cons k ks ih =>
+    rw [pick_cons] at h
+    split at h
+    · cases h
+    · split at h
+      · cases hr : pick bs ks with
+        | error e => simp [hr] at h
+        | ok r' =>
+          simp only [hr] at h
+          injection h with h; subst h
+          simp [ih r' hr]
+      · cases h
+
+/-- Picking in-range positions always succeeds. -/
+theorem pick_ok {α} (bs : List α) (ks : List Int) (h : ∀ k ∈ ks, 0 ≤ k ∧ k < bs.length) :
+    ∃ r, pick bs ks = .ok r := by
+  induction ks with
+  | nil => exact ⟨[], rfl⟩
+  | cons k ks ih =>
+    obtain ⟨r, hr⟩ := ih (fun x hx => h x (List.mem_cons_of_mem _ hx))
+    obtain ⟨h0, h1⟩ := h k (by simp)
+    rw [pick_cons, if_neg (by omega)]
+    have : k.toNat < bs.length := by omega
+    rw [List.getElem?_eq_getElem this]
+    exact ⟨bs[k.toNat] :: r, by simp [hr]⟩
+
+theorem pick_append {α} (bs : List α) (ks ls : List Int) (r s : List α)
+    (h1 : pick bs ks = .ok r) (h2 : pick bs ls = .ok s) : pick bs (ks ++ ls) = .ok (r ++ s) := by
+  induction ks generalizing r with
+  | nil => simp [pick_nil] at h1; subst h1; simpa using h2
+  | cons k ks ih =>
+    rw [pick_cons] at h1
+    rw [List.cons_append, pick_cons]
+    split at h1
+    · cases h1
+    · rename_i hk
+      rw [if_neg hk]
+      split at h1
+      · rename_i b hb
+        cases hr : pick bs ks with
+        | error e => simp [hr] at h1
+        | ok r' =>
+          simp only [hr] at h1
+          injection h1 with h1; subst h1
+          simp [ih r' hr]
+      · cases h1
+
+/-- Splitting a successful pick at the head. -/
+theorem pick_cons_ok {α} (bs : List α) (k : Int) (ks : List Int) (r : List α)
+    (h : pick bs (k :: ks) = .ok r) :
+    ∃ b r', 0 ≤ k ∧ bs[k.toNat]? = some b ∧ pick bs ks = .ok r' ∧ r = b :: r' := by
+  rw [pick_cons] at h
+  split at h
+  · cases h
+  · rename_i hk
+    split at h
+    · rename_i b hb
+      cases hr : pick bs ks with
+      | error e => simp [hr] at h
+      | ok r' =>
+        simp only [hr] at h
+        injection h with h
+        exact ⟨b, r', by omega, hb, rfl, h.symm⟩
+    · cases h
+
+/-- The identity selection. -/
+theorem pick_all {α} (bs : List α) : pick bs (arith 0 1 bs.length) = .ok bs := by
+  have key : ∀ (pre post : List α), pick (pre ++ post) (arith pre.length 1 post.length) = .ok post := by
+    intro pre post
+    induction post generalizing pre with
+    | nil => simp [arith, pick_nil]
+    | cons x xs ih =>
+      have harith : arith (pre.length : Int) 1 (x :: xs).length =
+          (pre.length : Int) :: arith ((pre ++ [x]).length : Int) 1 xs.length := by
+        rw [List.length_cons, arith_succ]
+        simp
+      rw [harith, pick_cons, if_neg (by omega)]
+      have hget : (pre ++ x :: xs)[((pre.length : Int)).toNat]? = some x := by simp
+      rw [hget]
+      have := ih (pre ++ [x])
+      rw [List.append_assoc, List.singleton_append] at this
+      rw [this]
+  simpa using key [] bs
+
+/-! ### well-formed `Inner`s -/
+
+/-- What every `SliceInner` computed by `sliceInner pw` satisfies. -/
+structure InnerWF (pw : Nat) (s : Inner) : Prop where
+  step_ne : s.step ≠ 0
+  n_pos : 1 ≤ s.width
+  bot_ge : 0 ≤ s.bot
+  top_le : s.top ≤ pw
+  pos : 0 < s.step → s.top = s.bot + (s.width - 1) * s.step + 1
+  neg : s.step < 0 → s.bot = s.top - 1 + (s.width - 1) * s.step
+
+theorem sliceInner_wf (pw : Nat) (idx : Index) (s : Inner) (h : sliceInner pw idx = .ok s) :
+    InnerWF pw s := by
+  cases idx with
+  | int i =>
+    simp only [sliceInner] at h
+    split at h
+    · cases h
+    · rename_i hc
+      injection h with h; subst h
+      refine ⟨by simp, by simp, ?_, ?_, ?_, ?_⟩ <;> simp only [] <;> (try split) <;> (try intro _) <;> omega
+  | range a b st =>
+    simp only [sliceInner] at h
+    split at h
+    · cases h
+    · rename_i hst
+      generalize hstep : st.getD 1 = step at *
+      generalize hadj : pyAdjust pw a b step = adj at *
+      obtain ⟨start, stop⟩ := adj
+      simp only [] at h
+      split at h
+      · cases h
+      · rename_i hn
+        have hb := pyAdjust_bounds pw a b step
+        rw [hadj] at hb
+        simp only [] at hb
+        have hnpos : (1 : Int) ≤ (pyLen start stop step : Nat) := by omega
+        split at h
+        · rename_i hpos
+          injection h with h; subst h
+          have hlt : start < stop := by
+            by_cases hc : start < stop
+            · exact hc
+            · exact absurd ((pyLen_zero_iff_pos hpos).2 hc) hn
+          have hlen := pyLen_pos_step hpos hlt
+          have hlast := last_lt_stop hpos hlt
+          obtain ⟨hb1, hb2⟩ := hb.1 hpos
+          refine ⟨hst, hnpos, hb1, ?_, fun _ => rfl, fun hneg => by simp only [] at hneg; omega⟩
+          simp only []
+          rw [hlen]
+          have : (stop - start - 1) / step + 1 - 1 = (stop - start - 1) / step := by omega
+          rw [this]; omega
+        · rename_i hnpos'
+          have hneg : step < 0 := by omega
+          injection h with h; subst h
+          have hlt : stop < start := by
+            by_cases hc : stop < start
+            · exact hc
+            · exact absurd ((pyLen_zero_iff_neg hneg).2 hc) hn
+          have hlen := pyLen_neg_step hneg hlt
+          have hlast := last_gt_stop hneg hlt
+          obtain ⟨hb1, hb2⟩ := hb.2 hneg
+          have hmul : ∀ q : Int, q * step = -(q * (-step)) := by intro q; rw [Int.mul_neg]; omega
+          refine ⟨hst, hnpos, ?_, by simp only []; omega, fun hp => by simp only [] at hp; omega, fun _ => by simp only []; omega⟩
+          simp only []
+          rw [hlen, hmul]
+          have : (start - stop - 1) / (-step) + 1 - 1 = (start - stop - 1) / (-step) := by omega
+          rw [this]; omega
+
+/-- The bits of a well-formed inner, as an arithmetic progression from its first bit. -/
+def Inner.first (s : Inner) : Int := if s.step < 0 then s.top - 1 else s.bot
+
+theorem bits_eq_arith (s : Inner) : s.bits = arith s.first s.step s.width.toNat := by
+  unfold Inner.bits Inner.first; split <;> rfl
+
+theorem mul_le_of_le_nonneg {j q s : Int} (hj : j ≤ q) (hs : 0 ≤ s) : j * s ≤ q * s :=
+  Int.mul_le_mul_of_nonneg_right hj hs
+
+/-- Every bit of a well-formed inner lies inside the parent. -/
+theorem InnerWF.inrange {pw : Nat} {s : Inner} (h : InnerWF pw s) : ∀ k ∈ s.bits, 0 ≤ k ∧ k < pw := by
+  intro k hk
+  rw [bits_eq_arith] at hk
+  obtain ⟨j, hj, rfl⟩ := mem_arith.1 hk
+  have hn := h.n_pos
+  have hjw : (j : Int) ≤ s.width - 1 := by omega
+  unfold Inner.first
+  rcases Int.lt_trichotomy s.step 0 with hs | hs | hs
+  · simp only [hs, if_true]
+    have e := h.neg hs
+    have h1 : (j : Int) * (-s.step) ≤ (s.width - 1) * (-s.step) := mul_le_of_le_nonneg hjw (by omega)
+    have h0 : 0 ≤ (j : Int) * (-s.step) := Int.mul_nonneg (by omega) (by omega)
+    have e1 : (j : Int) * s.step = -((j : Int) * (-s.step)) := by rw [Int.mul_neg]; omega
+    have e2 : (s.width - 1) * s.step = -((s.width - 1) * (-s.step)) := by rw [Int.mul_neg]; omega
+    have := h.bot_ge; have := h.top_le
+    rw [e1]; rw [e2] at e
+    constructor <;> omega
+  · exact absurd hs h.step_ne
+  · simp only [show ¬ s.step < 0 by omega, if_false]
+    have e := h.pos hs
+    have h1 : (j : Int) * s.step ≤ (s.width - 1) * s.step := mul_le_of_le_nonneg hjw (by omega)
+    have h0 : 0 ≤ (j : Int) * s.step := Int.mul_nonneg (by omega) (by omega)
+    have := h.bot_ge; have := h.top_le
+    constructor <;> omega
+
+/-! ### width vs denotation -/
+
+theorem denote_sig (n : String) (w : Nat) : (SConn.sig n w).denote = .ok (allBits n w) := by
+  unfold SConn.denote; rfl
+
+theorem denote_slice (p : SConn) (idx : Index) :
+    (SConn.slice p idx).denote =
+      (match p.denote with
+       | .ok bs => (match sliceInner bs.length idx with
+                    | .ok inner => pick bs inner.bits
+                    | .error e => .error e)
+       | .error e => .error e) := by
+  rw [SConn.denote]
+  cases p.denote with
+  | error e => rfl
+  | ok bs =>
+    simp only [bind, Except.bind]
+    cases sliceInner bs.length idx <;> rfl
+
+theorem denote_concat (ps : List SConn) : (SConn.concat ps).denote = denoteList ps := by
+  rw [SConn.denote]
+
+theorem denoteList_nil : denoteList [] = .ok [] := by rw [denoteList]
+
+theorem denoteList_cons (p : SConn) (ps : List SConn) :
+    denoteList (p :: ps) =
+      (match p.denote with
+       | .ok a => (match denoteList ps with | .ok b => .ok (a ++ b) | .error e => .error e)
+       | .error e => .error e) := by
+  rw [denoteList]
+  cases p.denote with
+  | error e => rfl
+  | ok a =>
+    simp only [bind, Except.bind]
+    cases denoteList ps <;> rfl
+
+theorem width_sig (n : String) (w : Nat) : (SConn.sig n w).width = .ok w := by rw [SConn.width]
+
+theorem width_slice (p : SConn) (idx : Index) :
+    (SConn.slice p idx).width =
+      (match p.width with
+       | .ok pw => (match sliceInner pw idx with
+                    | .ok inner => .ok inner.width.toNat
+                    | .error e => .error e)
+       | .error e => .error e) := by
+  rw [SConn.width]
+  cases p.width with
+  | error e => rfl
+  | ok pw =>
+    simp only [bind, Except.bind]
+    cases sliceInner pw idx <;> rfl
+
+theorem width_concat (ps : List SConn) : (SConn.concat ps).width = widthList ps := by rw [SConn.width]
+
+theorem widthList_nil : widthList [] = .ok 0 := by rw [widthList]
+
+theorem widthList_cons (p : SConn) (ps : List SConn) :
+    widthList (p :: ps) =
+      (match p.width with
+       | .ok a => (match widthList ps with | .ok b => .ok (a + b) | .error e => .error e)
+       | .error e => .error e) := by
+  rw [widthList]
+  cases p.width with
+  | error e => rfl
+  | ok a =>
+    simp only [bind, Except.bind]
+    cases widthList ps <;> rfl
+
+theorem allBits_length (n : String) (w : Nat) : (allBits n w).length = w := by simp [allBits]
+
+mutual
+/-- A connectable with a width has a denotation of exactly that many bits. -/
+theorem width_denote : (c : SConn) → ∀ w, c.width = .ok w → ∃ bs, c.denote = .ok bs ∧ bs.length = w
+  | .sig n w0, w, h => by
+    rw [width_sig] at h; injection h with h; subst h
+    exact ⟨_, denote_sig n w0, allBits_length n w0⟩
+  | .slice p idx, w, h => by
+    rw [width_slice] at h
+    cases hp : p.width with
+    | error e => simp [hp] at h
+    | ok pw =>
+      simp only [hp] at h
+      obtain ⟨pbs, hd, hl⟩ := width_denote p pw hp
+      cases hi : sliceInner pw idx with
+      | error e => simp [hi] at h
+      | ok inner =>
+        simp only [hi] at h
+        injection h with h
+        have wf := sliceInner_wf pw idx inner hi
+        obtain ⟨r, hr⟩ := pick_ok pbs inner.bits (by rw [hl]; exact wf.inrange)
+        refine ⟨r, ?_, ?_⟩
+        · rw [denote_slice, hd]; simp only [hl, hi]; exact hr
+        · rw [pick_length pbs inner.bits r hr, bits_eq_arith, arith_length]; exact h
+  | .concat ps, w, h => by
+    rw [width_concat] at h
+    obtain ⟨bs, hd, hl⟩ := widthList_denote ps w h
+    exact ⟨bs, by rw [denote_concat]; exact hd, hl⟩
+theorem widthList_denote : (ps : List SConn) → ∀ w, widthList ps = .ok w →
+    ∃ bs, denoteList ps = .ok bs ∧ bs.length = w
+  | [], w, h => by
+    rw [widthList_nil] at h; injection h with h; subst h
+    exact ⟨[], denoteList_nil, rfl⟩
+  | p :: ps, w, h => by
+    rw [widthList_cons] at h
+    cases hp : p.width with
+    | error e => simp [hp] at h
+    | ok a =>
+      simp only [hp] at h
+      cases hps : widthList ps with
+      | error e => simp [hps] at h
+      | ok b =>
+        simp only [hps] at h
+        injection h with h
+        obtain ⟨as, hda, hla⟩ := width_denote p a hp
+        obtain ⟨bs, hdb, hlb⟩ := widthList_denote ps b hps
+        refine ⟨as ++ bs, ?_, by simp [hla, hlb, h]⟩
+        rw [denoteList_cons, hda, hdb]
+end
+
+/-- If both exist, the width is the length of the denotation (the converse reading). -/
+theorem denote_length_of_width {c : SConn} {w : Nat} {bs : List Bit}
+    (hw : c.width = .ok w) (hd : c.denote = .ok bs) : bs.length = w := by
+  obtain ⟨bs', hd', hl⟩ := width_denote c w hw
+  rw [hd] at hd'; injection hd' with e; rw [e]; exact hl
+
+/-! ### the decomposition steps of `_list_slice` -/
+
+theorem sliceInner_int (pw : Nat) (k : Int) (h0 : 0 ≤ k) (h1 : k < pw) :
+    sliceInner pw (.int k) = .ok ⟨k + 1, k, 1, 1⟩ := by
+  simp only [sliceInner]
+  rw [if_neg (by omega), if_neg (by omega)]
+
+/-- A single in-range index denotes that one bit of the parent. -/
+theorem slice_int_denote (p : SConn) (pbs : List Bit) (k : Int) (b : Bit)
+    (hd : p.denote = .ok pbs) (h0 : 0 ≤ k) (hb : pbs[k.toNat]? = some b) :
+    (SConn.slice p (.int k)).denote = .ok [b] := by
+  have hlt : k.toNat < pbs.length := by
+    rcases Nat.lt_or_ge k.toNat pbs.length with h | h
+    · exact h
+    · rw [List.getElem?_eq_none h] at hb; cases hb
+  rw [denote_slice, hd]
+  simp only []
+  rw [sliceInner_int pbs.length k h0 (by omega)]
+  simp only []
+  have : Inner.bits ⟨k + 1, k, 1, 1⟩ = [k] := by
+    simp [Inner.bits, arith]
+  rw [this, pick_cons, if_neg (by omega), hb]
+  simp [pick_nil]
+
+theorem clamp_id {len step x : Int} (h0 : 0 ≤ x) (h1 : x < len) : pyClamp len step x = x := by
+  unfold pyClamp; rw [if_neg (by omega), if_neg (by omega)]
+
+theorem clamp_top_pos {len step x : Int} (hs : 0 < step) (h0 : 0 ≤ x) (h1 : x ≤ len) : pyClamp len step x = x := by
+  unfold pyClamp
+  rw [if_neg (by omega)]
+  split
+  · rw [if_neg (by omega)]; omega
+  · rfl
+
+/-- Positive step: the rest of the selection after its first bit is again a slice of the parent. -/
+theorem tail_pos (pw : Nat) (s : Inner) (wf : InnerWF pw s) (hs : 0 < s.step) (m : Nat)
+    (hw : s.width = (m : Int) + 2) :
+    ∃ s', sliceInner pw (.range (some (s.bot + s.step)) (some s.top) (some s.step)) = .ok s' ∧
+      s.bits = s.bot :: s'.bits ∧ 0 ≤ s.bot ∧ s.bot < pw := by
+  have e := wf.pos hs
+  have hb := wf.bot_ge
+  have ht := wf.top_le
+  rw [hw] at e
+  have hm0 : 0 ≤ (m : Int) * s.step := Int.mul_nonneg (by omega) (by omega)
+  have e' : s.top = s.bot + s.step + (m : Int) * s.step + 1 := by
+    have : ((m : Int) + 2 - 1) * s.step = s.step + (m : Int) * s.step := by
+      rw [show (m : Int) + 2 - 1 = (m : Int) + 1 by omega, Int.add_mul]; omega
+    omega
+  have hstart : pyClamp pw s.step (s.bot + s.step) = s.bot + s.step := clamp_id (by omega) (by omega)
+  have hstop : pyClamp pw s.step s.top = s.top := clamp_top_pos hs (by omega) ht
+  have hlen : pyLen (s.bot + s.step) s.top s.step = m + 1 := by
+    unfold pyLen
+    rw [if_neg (by omega), if_pos (by omega)]
+    have : s.top - (s.bot + s.step) - 1 = (m : Int) * s.step := by omega
+    rw [this, Int.mul_ediv_cancel _ (by omega : s.step ≠ 0)]
+    omega
+  refine ⟨⟨s.bot + s.step + ((m : Int) + 1 - 1) * s.step + 1, s.bot + s.step, s.step, ((m + 1 : Nat) : Int)⟩, ?_, ?_, hb, by omega⟩
+  · simp only [sliceInner, Option.getD_some]
+    rw [if_neg wf.step_ne]
+    simp only [pyAdjust, hstart, hstop, hlen]
+    rw [if_neg (by omega), if_pos hs]
+    push_cast; rfl
+  · rw [bits_eq_arith, bits_eq_arith]
+    unfold Inner.first
+    simp only [show ¬ s.step < 0 by omega, if_false, hw]
+    have : ((m : Int) + 2).toNat = (m + 1) + 1 := by omega
+    rw [this, arith_succ]
+    simp
+
+theorem clamp_id_neg {len step x : Int} (h0 : 0 ≤ x) (h1 : x < len) : pyClamp len step x = x := clamp_id h0 h1
+
+/-- Negative step: likewise, starting from the top. -/
+theorem tail_neg (pw : Nat) (s : Inner) (wf : InnerWF pw s) (hs : s.step < 0) (m : Nat)
+    (hw : s.width = (m : Int) + 2) :
+    ∃ s', sliceInner pw (.range (some (s.top - 1 + s.step))
+              (if s.bot > 0 then some (s.bot - 1) else none) (some s.step)) = .ok s' ∧
+      s.bits = (s.top - 1) :: s'.bits ∧ 0 ≤ s.top - 1 ∧ s.top - 1 < pw := by
+  have e := wf.neg hs
+  have hb := wf.bot_ge
+  have ht := wf.top_le
+  rw [hw] at e
+  have hm0 : 0 ≤ (m : Int) * (-s.step) := Int.mul_nonneg (by omega) (by omega)
+  have hmul : (m : Int) * s.step = -((m : Int) * (-s.step)) := by rw [Int.mul_neg]; omega
+  have e' : s.bot = s.top - 1 + s.step + (m : Int) * s.step := by
+    have : ((m : Int) + 2 - 1) * s.step = s.step + (m : Int) * s.step := by
+      rw [show (m : Int) + 2 - 1 = (m : Int) + 1 by omega, Int.add_mul]; omega
+    omega
+  have hstart : pyClamp pw s.step (s.top - 1 + s.step) = s.top - 1 + s.step := clamp_id (by omega) (by omega)
+  have hlen : pyLen (s.top - 1 + s.step) (s.bot - 1) s.step = m + 1 := by
+    unfold pyLen
+    rw [if_pos hs, if_pos (by omega)]
+    have : s.top - 1 + s.step - (s.bot - 1) - 1 = (m : Int) * (-s.step) := by omega
+    rw [this, Int.mul_ediv_cancel _ (by omega : -s.step ≠ 0)]
+    omega
+  refine ⟨⟨s.top - 1 + s.step + 1, s.top - 1 + s.step + ((m : Int) + 1 - 1) * s.step, s.step, ((m + 1 : Nat) : Int)⟩, ?_, ?_, by omega, by omega⟩
+  · simp only [sliceInner, Option.getD_some]
+    rw [if_neg wf.step_ne]
+    by_cases hb0 : s.bot > 0
+    · have hstop : pyClamp pw s.step (s.bot - 1) = s.bot - 1 := clamp_id (by omega) (by omega)
+      simp only [hb0, if_true, pyAdjust, hstart, hstop, hlen]
+      rw [if_neg (by omega), if_neg (by omega)]
+      push_cast; rfl
+    · have hb1 : s.bot = 0 := by omega
+      simp only [hb0, if_false, pyAdjust, hstart, hs, if_true]
+      have : (-1 : Int) = s.bot - 1 := by omega
+      rw [this]
+      simp only [hlen]
+      rw [if_neg (by omega), if_neg (by omega)]
+      push_cast; rfl
+  · rw [bits_eq_arith, bits_eq_arith]
+    unfold Inner.first
+    simp only [hs, if_true, hw]
+    have : ((m : Int) + 2).toNat = (m + 1) + 1 := by omega
+    rw [this, arith_succ]
+    simp
+
+/-! ### more helpers for the resolver proof -/
+
+theorem denoteList_singleton (c : SConn) (bs : List Bit) (h : c.denote = .ok bs) :
+    denoteList [c] = .ok bs := by
+  rw [denoteList_cons, h, denoteList_nil]; simp
+
+theorem denoteList_append (xs ys : List SConn) (a b : List Bit)
+    (hx : denoteList xs = .ok a) (hy : denoteList ys = .ok b) : denoteList (xs ++ ys) = .ok (a ++ b) := by
+  induction xs generalizing a with
+  | nil => rw [denoteList_nil] at hx; injection hx with hx; subst hx; simpa using hy
+  | cons x xs ih =>
+    rw [denoteList_cons] at hx
+    rw [List.cons_append, denoteList_cons]
+    cases hxd : x.denote with
+    | error e => simp [hxd] at hx
+    | ok xa =>
+      simp only [hxd] at hx ⊢
+      cases hxs : denoteList xs with
+      | error e => simp [hxs] at hx
+      | ok xb =>
+        simp only [hxs] at hx
+        injection hx with hx; subst hx
+        rw [ih xb hxs]; simp
+
+theorem arith_getElem (f st : Int) (n j : Nat) (h : j < n) : (arith f st n)[j]? = some (f + (j : Int) * st) := by
+  unfold arith
+  rw [List.getElem?_map, List.getElem?_range h]; rfl
+
+theorem pick_getElem {α} (bs : List α) (ks : List Int) (r : List α) (h : pick bs ks = .ok r)
+    (j : Nat) (k : Int) (hk : ks[j]? = some k) : 0 ≤ k ∧ r[j]? = bs[k.toNat]? ∧ (bs[k.toNat]?).isSome := by
+  induction ks generalizing r j with
+  | nil => simp at hk
+  | cons k0 ks ih =>
+    obtain ⟨b, r', h0, hb, hr, rfl⟩ := pick_cons_ok bs k0 ks r h
+    cases j with
+    | zero =>
+      simp only [List.getElem?_cons_zero, Option.some.injEq] at hk
+      subst hk
+      exact ⟨h0, by simp [hb], by simp [hb]⟩
+    | succ j =>
+      simp only [List.getElem?_cons_succ] at hk ⊢
+      exact ih r' hr j hk
+
+/-- A width-one well-formed inner selects exactly its `bot` bit. -/
+theorem bits_width_one (pw : Nat) (s : Inner) (wf : InnerWF pw s) (h1 : s.width = 1) : s.bits = [s.bot] := by
+  rw [bits_eq_arith, h1]
+  unfold Inner.first
+  rcases Int.lt_trichotomy s.step 0 with hs | hs | hs
+  · have := wf.neg hs; rw [h1] at this
+    simp [hs, arith]; omega
+  · exact absurd hs wf.step_ne
+  · simp [show ¬ s.step < 0 by omega, arith]
+
+/-- A positive-step selection of all `pw` bits is the identity selection. -/
+theorem bits_full (pw : Nat) (s : Inner) (wf : InnerWF pw s) (hs : 0 < s.step) (hw : s.width.toNat = pw) :
+    s.bits = arith 0 1 pw := by
+  have hn := wf.n_pos
+  have hwi : s.width = (pw : Int) := by omega
+  have e := wf.pos hs
+  have hb := wf.bot_ge
+  have ht := wf.top_le
+  rw [bits_eq_arith]
+  unfold Inner.first
+  simp only [show ¬ s.step < 0 by omega, if_false, hw]
+  rw [hwi] at e
+  have hmul : ((pw : Int) - 1) * 1 ≤ ((pw : Int) - 1) * s.step :=
+    Int.mul_le_mul_of_nonneg_left (by omega) (by omega)
+  have hb0 : s.bot = 0 := by omega
+  rw [hb0]
+  by_cases hp : pw = 1
+  · subst hp; simp [arith]
+  · have hz : ((pw : Int) - 1) * (s.step - 1) = 0 := by
+      rw [Int.mul_sub]; omega
+    rcases Int.mul_eq_zero.1 hz with h | h
+    · omega
+    · have : s.step = 1 := by omega
+      rw [this]
+
+/-- `bitAt` is the position of a bit of the inner in the grand-parent. -/
+theorem bits_getElem (s : Inner) (j : Nat) (h : j < s.width.toNat) : s.bits[j]? = some (s.bitAt j) := by
+  rw [bits_eq_arith, arith_getElem _ _ _ _ h]
+  unfold Inner.first Inner.bitAt
+  split <;> rfl
+
+/-- `findPart` locates the part of a concatenation holding a given bit. -/
+theorem findPart_sound : ∀ (ps : List SConn) (idx k : Nat) (part : SConn) (off : Nat) (bs : List Bit),
+    findPart ps idx k = .ok (part, off) → idx ≤ k → denoteList ps = .ok bs →
+    ∃ pb, part.denote = .ok pb ∧ pb[off]? = bs[k - idx]? ∧ off < pb.length
+  | [], idx, k, part, off, bs, h, _, _ => by rw [findPart] at h; cases h
+  | p :: ps, idx, k, part, off, bs, h, hle, hd => by
+    rw [findPart] at h
+    simp only [bind, Except.bind] at h
+    cases hw : p.width with
+    | error e => simp [hw] at h
+    | ok w =>
+      simp only [hw] at h
+      rw [denoteList_cons] at hd
+      obtain ⟨pb, hpd, hpl⟩ := width_denote p w hw
+      simp only [hpd] at hd
+      cases hrest : denoteList ps with
+      | error e => simp [hrest] at hd
+      | ok rb =>
+        simp only [hrest] at hd
+        injection hd with hd; subst hd
+        split at h
+        · rename_i hlt
+          injection h with h
+          injection h with h1 h2
+          subst h1; subst h2
+          refine ⟨pb, hpd, ?_, by omega⟩
+          rw [List.getElem?_append_left (by omega)]
+        · rename_i hge
+          obtain ⟨pb', hd', hg, hl⟩ := findPart_sound ps (idx + w) k part off rb h (by omega) hrest
+          refine ⟨pb', hd', ?_, hl⟩
+          rw [hg, List.getElem?_append_right (by omega)]
+          congr 1; omega
+
 end Hdl21
